@@ -341,7 +341,8 @@ impl Sut {
             }
         } else {
             h.poll = self.src.last_poll_interval.as_byte();
-            if stratum == 0 {
+            if stratum == 0 || code != "none" {
+                // (a KISS code string in the reference id of a non-KISS packet is just a reference id)
                 h.word3 = code.as_bytes()[..4].try_into().unwrap();
             } else if b(p, "refLocal") {
                 h.word3 = LOCAL_IP;
@@ -522,6 +523,9 @@ fn compare(exp_post: &Value, exp_out: &Value, st: &Value, out: &Value, panic: &O
             d.push(format!("out.{k}"));
         }
     }
+    if out["meas"].as_i64().unwrap_or(0) > exp_out["meas"].as_i64().unwrap_or(0) {
+        d.push("out.meas_over".to_string());
+    }
     if out["timer_ok"] != json!(true) {
         d.push("out.timer_ok".to_string());
     }
@@ -644,7 +648,22 @@ fn random_packet(rng: &mut Rng, cfg: &Cfg, sut: &Sut) -> Value {
                 p["cAuth"] = p["cEnc"].clone();
                 p["cEnc"] = json!([]);
             }
-            7 => p["uu"] = json!("bad"),
+            7 => {
+                // NAK markings on an unauthenticated datagram that is not a KISS packet
+                p["seal"] = json!("none");
+                p["ua"] = json!("none");
+                p["uu"] = json!("ok");
+                p["cUnt"] = p["cEnc"].clone();
+                p["cEnc"] = json!([]);
+                if ver == 5 {
+                    p["authnak"] = json!(true);
+                    if p["stratum"] == json!(0) {
+                        p["poll"] = json!(0);
+                    }
+                } else if p["stratum"] != json!(0) {
+                    p["code"] = json!("NTSN");
+                }
+            }
             _ => {
                 p["seal"] = json!("none");
                 p["ua"] = json!("none");
